@@ -866,6 +866,49 @@ def corpus_cases():
     return out
 
 
+def zero_vector_dtype_probe(ex) -> None:
+    """the property's zero-vector clause in every floating data type (the value programs use float32 / float64 only): a
+    Normalization hook run on a tensor that holds zero vectors must leave them zero — never NaN — whatever the order, scale,
+    dims and (default or explicit) eps; non-zero vectors of the same tensor must come out finite"""
+    class _M(Module):
+        def __init__(self, t):
+            Module.__init__(self)
+            self.register_buffer("w", t)
+
+        def forward(self, x):
+            return x
+    for dt in (torch.float16, torch.bfloat16, torch.float32, torch.float64):
+        for shape, dim in (((2, 3), -1), ((3,), None), ((2, 2, 2), (1, 2))):
+            for order in (1, 2, float("inf")):
+                for scale in (1.0, -2.0):
+                    for eps in (None, 1e-12, 2.0 ** -10):
+                        t = torch.zeros(shape, dtype=dt)
+                        if len(shape) > 1:
+                            t[0] = 1.0                      # one non-zero vector next to the zero ones
+                        m = _M(t)
+                        kw = {} if eps is None else {"epsilon": eps}
+                        case = {"section": "zero-vector-dtype", "dtype": str(dt), "shape": list(shape), "dim": dim, "order": order,
+                                "scale": scale, "eps": eps}
+                        ex.evaluations += 1
+                        ex.count("zero_vector_probe_dtype", str(dt))
+                        try:
+                            h = Normalization(m, "w", order, scale, dim, **kw)
+                            h.register()
+                            m(torch.zeros(1))
+                            out = m.w.detach().to(torch.float64)
+                        except Exception as e:  # noqa: BLE001
+                            ex.findings.append(Finding(kind="spec", key=f"C16:spec:normalize-zero:raises:{dt}",
+                                                       what=f"Normalization on a {dt} tensor with zero vectors raises {type(e).__name__}: {str(e)[:120]}", case=case))
+                            continue
+                        zero_part = out[1:] if len(shape) > 1 else out
+                        if not bool(torch.isfinite(out).all()) or bool((zero_part != 0).any()):
+                            if sum(1 for f in ex.findings if f.key.startswith("C16:spec:normalize-zero")) < 3:
+                                ex.findings.append(Finding(kind="spec", key=f"C16:spec:normalize-zero:{dt}",
+                                                           what=f"Normalization(order={order}, scale={scale}, dim={dim}, eps={'default' if eps is None else eps}) on a "
+                                                                f"{dt} tensor of shape {list(shape)} with zero vectors: result {out.flatten().tolist()[:8]} "
+                                                                "(zero vectors must stay zero)", case=case))
+
+
 def explore(ctx) -> Exploration:
     torch.set_default_dtype(torch.float64)
     ex = Exploration()
@@ -910,6 +953,7 @@ def explore(ctx) -> Exploration:
                "(default) down to 2**-100, norm orders restricted so that |x|**p stays inside the type's normal range; every vector "
                "with norm >= eps is held to norm == |scale| at 1e-4 (float32) / 1e-6 (float64), re-assigned mid-run by set / swap); a "
                "case is non-trivial when at least one hook actually ran; distinct = distinct protocol text")
+    zero_vector_dtype_probe(ex)
     ex.samples = [exh[0], rnd[0], val[0], mag[0]]
     ex.extra["post_condition_checks"] = dict(STATS)
     ex.extra["norm_checked_fibres_by_dtype_and_decade_of_norm_before"] = dict(sorted(NORM_DECADES.items()))
